@@ -59,7 +59,8 @@ CLAIMED["C16"] = dict(
     "Constraints value, allocation, leaf flag, initial state of any sp alignment and every body respecting the "
     "frame condition: registers/flags/sp restored, no write at or above sp0 nor in the red zone, only own slots "
     "read, reported adjustment = real displacement, aligned body entry; allocation theorems for the scratch "
-    "registers. ABI tables regenerated from abi._ABIS and checked (decide) against hand-written platform facts. "
+    "registers (as many as requested, distinct, never clobbered or read; taking the read registers out of the pool "
+    "never fails). ABI tables regenerated from abi._ABIS and checked (decide) against hand-written platform facts. "
     "Tie: the real generators' text is parsed, compared with the Lean generator, and executed on the Lean "
     "machine with a hostile body.",
     technique="Lean 4 proof (wrapper-transparency lemmas + structural induction) + translator + differential correspondence + executable-spec oracle on the real output",
@@ -154,8 +155,12 @@ CLAIMED["C06"] = dict(
     "an invariant of add_function_block_aux (for a block in no function) and remove_function_block_aux, the only "
     "writers; a block split off inherits the function of its parent; a removed block is in no function by cache "
     "and by table; a function that lost its last block and entry disappears from all three tables; are_joinable "
-    "never joins across functions nor into an entry block." + EMOD_TIE + " Partial: entry promotion on deletion and "
-    "the attribution of inserted code over whole insert/delete calls are decided by oracle and correspondence.",
+    "never joins across functions nor into an entry block; and over whole calls: insert(), delete(), the loop of "
+    "_apply_modifications over the requests of a block and apply()'s loop over all blocks keep functions_by_block "
+    "the mirror of functionBlocks (Lemmas/IRMirror.lean: insert_keeps_cache_in_step, delete_keeps_cache_in_step, "
+    "apply_keeps_cache_in_step), the premise (fresh patch block ids) evaluated on the recorded states." + EMOD_TIE +
+    " Partial: entry promotion on deletion and which function inserted code belongs to are decided by oracle and "
+    "correspondence.",
     technique=EMOD_TECH,
     design="DESIGN.md#c06",
 )
@@ -193,9 +198,11 @@ CLAIMED["C09"] = dict(
     "assignment, ReturnEdgeCache of a scan of the edge set, BlockOrdering of the list of blocks (C20, restated), "
     "functions_by_block of functionBlocks (mirror invariant); the only state _apply_modifications carries between "
     "the modifications of a block is the running offset: a request list processed in one go equals a prefix "
-    "followed by the rest (bytes and positions). Oracle: the real module after one apply() against the module "
+    "followed by the rest (bytes and positions); functions_by_block agrees with functionBlocks after every insert/"
+    "delete of a batch, for every request list and every block list (function_cache_agrees_at_every_step). Oracle: the real module after one apply() against the module "
     "obtained by applying the requests one at a time in fresh contexts (canonical dumps); after every recorded "
-    "operation of the batch run the caches' answers against the IR. Partial: batch = sequential for whole modules "
+    "operation of the batch run the caches' answers against the IR; retarget_symbol_uses in the same context; what a "
+    "batch refused at its last request leaves behind against the same requests one at a time. Partial: batch = sequential for whole modules "
     "is decided by the differential run, not by a theorem about the full model.",
     technique="Lean 4 proof (refinement theorems of the caches, induction over the request list) + differential run batch vs. one-at-a-time on the real code + cache-vs-IR comparison at every recorded step",
     design="DESIGN.md#c09",
@@ -207,9 +214,12 @@ CLAIMED["C10"] = dict(
     "nop encoding (induction over the cut points, the full padding logic reduced to plain appending under the "
     "premises); one iteration of the cut loop is undone by appending; a cut keeps the bytes and the absolute "
     "address of every block it moves; the padding arithmetic reaches the boundary with less than one boundary of "
-    "padding. Tie: the real split/join on generated intervals (overlaps, gaps, zero-sized blocks, uninitialized "
+    "padding; the padding of the listing specification satisfies every alignment requested at a piece's first "
+    "aligned offset and is shorter than the strictest of them (powers of two). Tie: the real split/join on generated intervals (overlaps, gaps, zero-sized blocks, uninitialized "
     "tails, expressions and aux entries, alignment tables, nop sizes 1/2/4) against the compiled model and against "
-    "the statement itself; empty apply() against the identity; alignment after arbitrary rewrites. Partial: the "
+    "the statement itself; empty apply() against the identity (also with sections that hold no byte interval); "
+    "alignment after arbitrary rewrites, the padding bytes and block geometry against the listing specification, "
+    "the decode mode of padding behind Thumb code. Partial: the "
     "padding/uninitialized cases of join and the empty-apply identity are decided by correspondence and oracle.",
     technique="Lean 4 proof (induction over cut points, permutation reasoning) + differential correspondence of the real split/join with the compiled model + direct oracles",
     design="DESIGN.md#c10",
@@ -223,7 +233,8 @@ CLAIMED["C11"] = dict(
     "is permutation invariant). Oracle: the real code rewrites the same cases in several fresh interpreter "
     "processes with different PYTHONHASHSEED, allocation pattern (id-based hashes, set iteration order) and UUIDs; "
     "canonical dumps must be identical, also when requests of different locations are registered in another "
-    "order; byte intervals with blocks tying on their offset are split in every process. Partial: hash-order "
+    "order (retarget requests included); byte intervals with blocks tying on their offset are split in every process; "
+    "the command-line driver with several --run passes; modules with two symbols of one name. Partial: hash-order "
     "independence of the whole rewrite is decided by the multi-process run; modules with several sections are "
     "excluded (gtirb_layout dependency).",
     technique="Lean 4 proof (permutation invariance of the set-iterating folds, sort uniqueness) + multi-process differential run of the real code",
